@@ -156,6 +156,13 @@ Expected ==
     [] f.kind = "burst" -> BurstOut(p, ins)
     [] f.kind = "totext" -> ToTextFn(p, ins)
     [] f.kind = "fftframes" -> FftFrames(p, ins)
+    [] f.kind = "fir" -> FirFn(p, ins)
+    [] f.kind = "firc" -> FirFnC(p, ins)
+    [] f.kind = "fftfilt" -> FftFiltFn(p, ins)
+    [] f.kind = "fftfiltc" -> FftFiltFnC(p, ins)
+    [] f.kind = "fastfm" -> FastFmFn(p, ins)
+    [] f.kind = "qdemod8" -> QuadDemod8(p, ins)
+    [] f.kind = "spiir" -> SpIirFn(p, ins)
     [] f.kind = "s2pdu" -> << Flatten(StreamToPduFn(p, ins, InTagSet)) >>
     [] f.kind = "hdlc" -> << Flatten(H!Deframe(p, ins[1])) >>
     [] f.kind = "expect" -> p.expect
